@@ -5,14 +5,14 @@
 //@ assume: mmr_size >= 1 (the archive header's MMR sizes; mmr_size = 0 makes `mmr_size - 1` wrap)
 //@ assume: HashWriter::finalize / into_hash stubbed to a constant digest: hash values reach control flow only in the final root comparison, whose two outcomes both return; Blake2b::update stubbed to a no-op
 //@ assume: prunable path (bitmap = Some) not covered: croaring::Bitmap is C code behind FFI
-//@ repeat S in 1..=3
+//@ repeat S in 1..=2
 //@ repeat H in 0..=2
-//@ harness seg_validate_nopanic_{S}_h{H} kind=bounded tier=quick fns=Segment::root,Segment::validate,Segment::first_unpruned_parent,Segment::get_hash,SegmentProof::validate,SegmentProof::reconstruct_root,SegmentIdentifier::segment_pos_range,SegmentIdentifier::segment_unpruned_size,SegmentIdentifier::full_segment,SegmentIdentifier::leaf_offset,SegmentIdentifier::segment_capacity bound=mmr_size_1..=3_quick_/_1..=16_thorough_(one_harness_per_size_and_height);_<=2_hashes,_<=2_leaves,_<=2_proof_hashes_with_arbitrary_positions;_identifiers_height_0..=2,_idx_0..=(size>>height)+2,_plus_(63,2),(64,1),(255,u64::MAX);_bitmap=None
+//@ harness seg_validate_nopanic_{S}_h{H} kind=bounded tier=quick fns=Segment::root,Segment::validate,Segment::first_unpruned_parent,Segment::get_hash,SegmentProof::validate,SegmentProof::reconstruct_root,SegmentIdentifier::segment_pos_range,SegmentIdentifier::segment_unpruned_size,SegmentIdentifier::full_segment,SegmentIdentifier::leaf_offset,SegmentIdentifier::segment_capacity bound=mmr_size_1..=2_quick_/_3..=8_thorough_(best_effort)_(one_harness_per_size_and_height);_<=2_hashes,_<=2_leaves,_<=2_proof_hashes_with_arbitrary_positions;_identifiers_height_0..=2,_idx_0..=(size>>height)+2,_plus_(63,2),(64,1),(255,u64::MAX);_bitmap=None
 //@ end
 //@ end
-//@ repeat S in 4..=16
+//@ repeat S in 3..=8
 //@ repeat H in 0..=2
-//@ harness seg_validate_nopanic_{S}_h{H} kind=bounded tier=thorough fns=Segment::root,Segment::validate bound=mmr_size_{S}
+//@ harness seg_validate_nopanic_{S}_h{H} kind=bounded tier=thorough optional=1 fns=Segment::root,Segment::validate bound=mmr_size_{S}
 //@ end
 //@ end
 //@ harness seg_read_nopanic_alloc kind=complete tier=quick fns=Segment::read,SegmentProof::read,SegmentIdentifier::read,read_segment_item_count,read_segment_positions,read_segment_items bound=-
@@ -105,20 +105,20 @@ macro_rules! seg_validate {
 		}
 	};
 }
-//@ repeat S in 1..=16
+//@ repeat S in 1..=8
 //@ repeat H in 0..=2
 seg_validate!(seg_validate_nopanic_{S}_h{H}, {S}, {H});
 //@ end
 //@ end
 
-/// Segment::<KLeaf>::read on every byte string of length 0..=82 (identifier + one hash entry + one leaf entry + counts): no panic, bounded allocation,
+/// Segment::<KLeaf>::read on every byte string of length 0..=50 (identifier, the three counts and up to two positions; the unbounded statement is the Verus unit C11/segment_read): no panic, bounded allocation,
 /// every count loop ends at EOF.
 #[kani::proof]
-#[kani::unwind(11)]
+#[kani::unwind(7)]
 #[kani::stub(alloc::fmt::format, stub_format)]
 #[kani::stub(std::vec::Vec::with_capacity, checked_with_capacity)]
 fn seg_read_nopanic_alloc() {
-	let mut r = KReader::<82>::any();
+	let mut r = KReader::<50>::any();
 	let res = Segment::<KLeaf>::read(&mut r);
 	if let Ok(s) = res {
 		assert!(s.hash_pos.len() == s.hashes.len() && s.leaf_pos.len() == s.leaf_data.len());
